@@ -394,7 +394,19 @@ def flushLine (tag txn pipe fl : String) : String :=
       match t.toNat? with
       | some nd => .routed nd
       | none => .refused))
-  let vs := ClusterFlush.verdicts ClusterFlush.codeGuards (txn == "1") (pipe == "1") flushes
+  -- a flush token may carry its own mode: `T<puts>` transactional, `N<puts>` plain (mixed use of one client)
+  let mixed : List (Bool × List ClusterSender.PutEv) := (fl.splitOn "/").map (fun f =>
+    let (tx, body) :=
+      if f.startsWith "T" then (true, (f.drop 1).toString)
+      else if f.startsWith "N" then (false, (f.drop 1).toString)
+      else (txn == "1", f)
+    (tx, (parseCsv body).map (fun t =>
+      match t.toNat? with
+      | some nd => ClusterSender.PutEv.routed nd
+      | none => ClusterSender.PutEv.refused)))
+  let vs := if fl.any (fun c => c == 'T' || c == 'N')
+    then ClusterFlush.verdictsM ClusterFlush.codeGuards (pipe == "1") mixed
+    else ClusterFlush.verdicts ClusterFlush.codeGuards (txn == "1") (pipe == "1") flushes
   s!"{tag} verdicts {joinOr (vs.map (fun b => if b then "ok" else "err"))}"
 
 end X
